@@ -247,7 +247,10 @@ impl<'a> Evaluator<'a> {
                 CountDistinct(a) => {
                     let array = self.next(*a).eval(chunk)?;
                     for value in array.iter() {
-                        values.insert(value);
+                        // COUNT(DISTINCT x) ignores NULL
+                        if !value.is_null() {
+                            values.insert(value);
+                        }
                     }
                     AggState::DistinctValue(values)
                 }
@@ -274,7 +277,10 @@ impl<'a> Evaluator<'a> {
                 t => panic!("not aggregation: {t}"),
             }),
             AggState::DistinctValue(mut values) => {
-                values.insert(value);
+                // COUNT(DISTINCT x) ignores NULL
+                if !value.is_null() {
+                    values.insert(value);
+                }
                 AggState::DistinctValue(values)
             }
         }
